@@ -1,8 +1,8 @@
 SPECIFICATION Spec
 CONSTANTS
-  Ints <- WideInts
-  Strs <- WideStrs
-  Tags <- WideTags
+  Ints <- LongInts
+  Strs <- LongStrs
+  Tags <- DeepTags
   MaxStack = 2
   MaxNodes = 3
   MaxDepth = 2
